@@ -1,7 +1,7 @@
 (* C09 — HDLC frames follow the frame format, round-trip; corruption never alters content.
    (partial: see the level note in MANIFEST.json and DESIGN.md; the parse-after-build and
    corruption statements are checked by exhaustive fault enumeration on the implementation) *)
-From Dlms Require Import Base CrcModel CrcSpec FieldsSpec AddrModel AddrSpec AddrProofs FrameModel FrameProofs.
+From Dlms Require Import Base CrcModel CrcSpec FieldsSpec AddrModel AddrSpec AddrProofs FrameModel FrameSpec FrameProofs.
 
 (* every frame the library can build (all six kinds, addresses in the C13 domain, numbers 0..7,
    both flag bits, any payload with total length <= 2047) serialises to
